@@ -31,6 +31,9 @@ CHECKS = {
     "C11": dict(spec="HttpTransport", ref="DESIGN.md §4 C11",
                 text="HttpTransport specifies the serial sender loop, the outcome relation Allowed(kind, behaviour) of the statement (what may appear on the read stream for every way an endpoint can answer a POST) and session tracking; TLC enumerates the matrix of meaningful behaviours (6 statuses x 4 content types x 11 body classes x 7 SSE encodings x 3 transport exceptions x session header) and checks one-terminal, no-invention and session-most-recent on all sequences of length 2 (257 k states). Every matrix entry - alone with every id class (incl. 0 and \"\"), after a session-issuing response, and inside seeded sequences of length 4, each followed by a probe request - runs against the real http_client over a scripted httpx transport under the virtual clock; TLC judges every step (items on the read stream, Mcp-Session-Id header) without stopping at the first failure.",
                 note="Trusted: TLC, the httpx MockTransport seam, the SSE encoder of the driver (produces the conformant encodings). The real-socket variant of DESIGN §4 is not built."),
+    "C12": dict(spec="SseTransport", ref="DESIGN.md §4 C12",
+                text="SseTransport models establishment (announced at once/slowly, HTTP error, connect error, stream ends, never announces), the future/POST/event race of one request (200 body, 202 then event, event then 202, 202 and silence, 500, exception, answer after the synthesised timeout), server-initiated messages and exit at any point, in model time; TLC checks live-or-raise, within-timeout, one-terminal and in-order delivery exhaustively and shows that the two pre-repair deviations violate them. Every schedule TLC generates is executed (2 seeds each in quick: chunkings of the event-stream bytes incl. cuts inside multi-byte characters, id shapes, announcement forms, exit path normal/exception/outer cancellation) against the real sse_client over a scripted httpx transport under the virtual clock; TLC judges the recorded entry outcome, read stream and released resources against the specification's clauses and the model's expectation for that schedule.",
+                note="Trusted: TLC, the httpx MockTransport seam, the virtual clock (settling costs virtual milliseconds; exits wait 0.25 model units). The trace specification judges end-of-schedule clauses (observer), the race itself is model-checked."),
     "C13": dict(spec="Versioning, BatchGate", ref="DESIGN.md §4 C13",
                 text="Versioning defines the numeric order, the string order ProtocolVersion.compare uses and the branch structure of supports_batching over triples; TLC checks on every grid point (quick: 2015..2035, thorough: the whole 2.1 M grid) that the orders agree, that the decision is 'older than 2025-06-18', that the code's branches implement it and that it is monotone. The real supports_batching, BatchProcessor and ProtocolVersion.compare are evaluated on all 2 100 000 strings in both tiers and TLC checks their run-length encoded decision vectors index by index. BatchGate specifies the transport rule (reject the whole batch with one -32600 / deliver valid members in order, drop invalid ones alone, version changes at any time); TLC checks its action properties and generates scripts that, with seeded longer ones, run against the real StdioClient behind a scripted process seam; each step's deliveries, notifications and bytes to the child are validated against the specification.",
                 note="Trusted: TLC, the process seam (anyio.open_process replaced), the virtual clock. A trace the BatchGate specification cannot follow is a violation at that step (the specification is the statement)."),
